@@ -131,9 +131,12 @@ func (sc c14Scenario) body(c *explore.Ctx) {
 	}
 	vsched.Quiesce()
 	armed = false
-	if b := vsched.Blocked(); len(b) > 0 {
-		c.Failf("blocked", "processes blocked: %v", b)
-		return
+	for i, p := range procs {
+		if len(p.recs) != sc.encs {
+			// (parked event goroutines of session caches are daemons, only the processes themselves count)
+			c.Failf("blocked", "process %d finished %d of %d encrypts; parked threads: %v", i+1, len(p.recs), sc.encs, vsched.Blocked())
+			return
+		}
 	}
 	// ---- oracle
 	vsched.BeginQuiet()
@@ -273,6 +276,13 @@ func c14Scenarios(thorough bool) []c14Scenario {
 			out = append(out, c14Scenario{name: "2p-nocache-" + st, procs: 2, start: st, encs: 1, spec: SpecNoCache})
 		}
 		out = append(out, c14Scenario{name: "2p-revokedSK-bucket", procs: 2, start: "revokedSK", encs: 1, spec: SpecDefault, bucket: true})
+		out = append(out, c14Scenario{name: "2p-revokedIK-bucket", procs: 2, start: "revokedIK", encs: 1, spec: SpecDefault, bucket: true})
+		out = append(out, c14Scenario{name: "2p-skOnly-bucket", procs: 2, start: "skOnly", encs: 1, spec: SpecDefault, bucket: true})
+		for _, st := range []string{"cold", "expired", "revokedSK"} {
+			out = append(out, c14Scenario{name: "2p-shared-lru-1-" + st, procs: 2, start: st, encs: 1, spec: SpecShared("lru", 1)})
+			out = append(out, c14Scenario{name: "2p-sessions-" + st, procs: 2, start: st, encs: 1, spec: SpecSessions("slru", 1)})
+			out = append(out, c14Scenario{name: "3p-nocache-" + st, procs: 3, start: st, encs: 1, spec: SpecNoCache})
+		}
 	}
 	return out
 }
@@ -290,7 +300,7 @@ func CheckC14(r *Report) {
 		t0 := time.Now()
 		pre := -1
 		if sc.procs > 2 {
-			pre = 3
+			pre = 4
 		}
 		cfg := explore.Config{Name: "C14/" + sc.name, Preemptions: pre, Deviations: 1, HBCache: true, ExtOnly: true, Deadline: r.Deadline, MaxViolations: 50}
 		res := explore.Explore(cfg, sc.body)
